@@ -229,9 +229,19 @@ pub fn oracle_true_digests(sub: &str, x: &[u8], rank: u64, case: &dyn Fn() -> Va
             Some(Val::Int32(v)) if !v.is_empty() => v[0],
             _ => 1,
         };
+        if digests.len() != names.len() || modes.len() != names.len() {
+            bad("file-digest-count", format!("{} files but {} file digests and {} modes: the per-file arrays are out of step", names.len(), digests.len(), modes.len()));
+        }
         match read_archive(&archive, &sizes) {
             Err(e) => bad("archive", format!("archive unreadable: {}", e)),
             Ok((ents, _)) => {
+                // the builder archives every file it lists, in header order, and records SHA-256 digests
+                if algo != 8 {
+                    bad("file-digest-algo", format!("file digest algorithm {} recorded, the digests are SHA-256", algo));
+                }
+                if ents.len() != names.len() {
+                    bad("archive-entry-count", format!("{} files in the header, {} entries in the archive", names.len(), ents.len()));
+                }
                 if algo == 8 && ents.len() == names.len() && digests.len() == names.len() && modes.len() == names.len() {
                     for (i, e) in ents.iter().enumerate() {
                         let data = match e {
